@@ -4,23 +4,46 @@
 use crate::engine::*;
 use crate::util::*;
 use quil_rs::instruction::*;
-use quil_rs::program::analysis::ControlFlowGraph;
+use quil_rs::program::analysis::{BasicBlock, BasicBlockTerminator, ControlFlowGraph, ControlFlowGraphOwned};
 use quil_rs::Program;
 use serde_json::{json, Value};
 use std::str::FromStr;
 
 const MENU: &[&str] = &["X 0", "MOVE r 1", "LABEL @a", "LABEL @b", "JUMP @a", "JUMP-WHEN @a r", "JUMP-UNLESS @b r", "HALT"];
+/// Second menu: the jumps / labels / conditions the first one lacks (other target per jump kind, an
+/// indexed condition, a target no label defines).
+const MENU2: &[&str] = &["X 0", "LABEL @a", "LABEL @b", "JUMP @b", "JUMP @c", "JUMP-WHEN @b s[1]", "JUMP-UNLESS @a s[1]", "JUMP-UNLESS @a r", "HALT"];
+/// One ordinary instruction of every kind the graph builder keeps inside a block.
+const KINDS: &[&str] = &[
+    "ADD r 1", "AND r 1", "CALL f r", "CAPTURE 0 \"ro\" flat(duration: 1.0, iq: 1.0) w", "CONVERT r n", "EQ r r 1", "DELAY 0 1.0", "FENCE 0",
+    "EXCHANGE r t", "LOAD r t n", "PRAGMA x", "MEASURE 0 r", "MEASURE 0", "NOP", "PULSE 0 \"ro\" flat(duration: 1.0, iq: 1.0)",
+    "RAW-CAPTURE 0 \"ro\" 1.0 w", "RESET", "RESET 0", "SET-FREQUENCY 0 \"ro\" 1.0", "SET-PHASE 0 \"ro\" 1.0", "SET-SCALE 0 \"ro\" 1.0",
+    "SHIFT-FREQUENCY 0 \"ro\" 1.0", "SHIFT-PHASE 0 \"ro\" 1.0", "STORE t n r", "SWAP-PHASES 0 \"ro\" 1 \"ro\"", "NOT r", "WAIT", "RX(r) 0",
+];
+const KIND_CTL: &[&str] = &["LABEL @a", "JUMP-WHEN @a r", "HALT"];
 
 pub static DEF: PropDef = PropDef {
     id: "C28",
     level: "model_checking",
     engine: "sweep",
-    rule: "every body (sequence of instructions) of length <= 6 (thorough 8) over the 8-symbol menu {X 0, MOVE r 1, LABEL @a, LABEL @b, JUMP @a, JUMP-WHEN @a r, JUMP-UNLESS @b r, HALT}; a state is a body prefix, a transition appends one instruction; in every state: blocks written back as label + instructions + terminator reproduce the body, each terminator reflects its jump / HALT / fall-through, dynamic control flow iff a conditional jump, each offset = body position of the block's first element and offset-based indices find the block's instructions; non-trivial = body whose CFG has >= 2 blocks (distinct by body text)",
+    rule: "every body (sequence of instructions) of length <= 6 (thorough 8) over the 8-symbol menu {X 0, MOVE r 1, LABEL @a, LABEL @b, JUMP @a, JUMP-WHEN @a r, JUMP-UNLESS @b r, HALT}, of length <= 5 (7) over a second 9-symbol menu with the other target of each jump kind, an indexed condition s[1] and a target no label defines, and of length <= 4 (5) over {K, LABEL @a, JUMP-WHEN @a r, HALT} for one instruction K of each of the 28 ordinary kinds the builder keeps inside a block (classical, CALL, pulse-level, PRAGMA, NOP, WAIT, RESET, MEASURE, ...); a state is a body prefix, a transition appends one instruction; in every state: blocks written back as label + instructions + terminator reproduce the body, each terminator reflects its jump / HALT / fall-through (kind, target, condition, is_dynamic), dynamic control flow iff a conditional jump, each offset = body position of the block's first element and offset-based indices find the block's instructions; the same observations after the round trip through ControlFlowGraphOwned; BasicBlock::try_from(&program) is Ok exactly for one-block bodies and gives that block; non-trivial = body whose CFG has >= 2 blocks (distinct by body text)",
     assumptions: &["reference: blocks are written back as [label] ++ instructions ++ [terminator]; offsets from the running length of that reconstruction"],
     run,
     replay,
     caps: (50, 3000),
 };
+
+/// What one block shows through the public accessors.
+type Obs = (Option<String>, Vec<String>, usize, String);
+fn observe(b: &BasicBlock) -> Obs {
+    let t = match b.terminator() {
+        BasicBlockTerminator::ConditionalJump { condition, target, jump_if_condition_zero } => format!("cond({}, {}, zero={})", q(*condition), q(*target), jump_if_condition_zero),
+        BasicBlockTerminator::Continue => "continue".to_string(),
+        BasicBlockTerminator::Jump { target } => format!("jump({})", q(*target)),
+        BasicBlockTerminator::Halt => "halt".to_string(),
+    };
+    (b.label().map(q), b.instructions().iter().map(|i| q(*i)).collect(), b.instruction_index_offset(), t)
+}
 
 fn check(body: &[Instruction]) -> Vec<(&'static str, String)> {
     let mut out = vec![];
@@ -28,9 +51,15 @@ fn check(body: &[Instruction]) -> Vec<(&'static str, String)> {
     let r = catch(|| {
         let g = ControlFlowGraph::from(&p);
         let dynamic = g.has_dynamic_control_flow();
-        (dynamic, g.into_blocks())
+        // round trip through the owned form
+        let owned = ControlFlowGraphOwned::from(g.clone());
+        let back = ControlFlowGraph::from(&owned);
+        let dyn_back = back.has_dynamic_control_flow();
+        let obs_back: Vec<Obs> = back.into_blocks().iter().map(observe).collect();
+        let only = BasicBlock::try_from(&p).ok().map(|b| observe(&b));
+        (dynamic, dyn_back, obs_back, only, g.into_blocks())
     });
-    let (dynamic, blocks) = match r {
+    let (dynamic, dyn_back, obs_back, only, blocks) = match r {
         Ok(x) => x,
         Err(e) => return vec![("panic", e)],
     };
@@ -38,6 +67,7 @@ fn check(body: &[Instruction]) -> Vec<(&'static str, String)> {
     let mut offsets_got = vec![];
     let mut offsets_want = vec![];
     let mut index_ok = true;
+    let mut any_dynamic_block = false;
     for b in &blocks {
         offsets_got.push(b.instruction_index_offset());
         offsets_want.push(rebuilt.len());
@@ -54,7 +84,35 @@ fn check(body: &[Instruction]) -> Vec<(&'static str, String)> {
             }
             rebuilt.push((*i).clone());
         }
-        if let Some(t) = b.terminator().clone().into_instruction() {
+        // the terminator reflects the instruction that ended the block
+        let term = b.terminator().clone();
+        let is_dyn = term.is_dynamic();
+        any_dynamic_block |= is_dyn;
+        let want = match &term {
+            BasicBlockTerminator::ConditionalJump { condition, target, jump_if_condition_zero } => Some(if *jump_if_condition_zero {
+                Instruction::JumpUnless(JumpUnless { condition: (*condition).clone(), target: (*target).clone() })
+            } else {
+                Instruction::JumpWhen(JumpWhen { condition: (*condition).clone(), target: (*target).clone() })
+            }),
+            BasicBlockTerminator::Continue => None,
+            BasicBlockTerminator::Jump { target } => Some(Instruction::Jump(Jump { target: (*target).clone() })),
+            BasicBlockTerminator::Halt => Some(Instruction::Halt()),
+        };
+        let got = term.into_instruction();
+        if got != want {
+            out.push(("terminator", format!("into_instruction gives {:?}, the terminator's fields say {:?}", got.as_ref().map(q), want.as_ref().map(q))));
+        }
+        if is_dyn != matches!(want, Some(Instruction::JumpWhen(_) | Instruction::JumpUnless(_))) {
+            out.push(("terminator", format!("is_dynamic()={is_dyn} on {:?}", want.as_ref().map(q))));
+        }
+        // the instruction at the terminator's body position is that very instruction
+        let tpos = off + usize::from(has_label) + b.instructions().len();
+        if let Some(w) = &want {
+            if p.body_instructions().nth(tpos) != Some(w) {
+                index_ok = false;
+            }
+        }
+        if let Some(t) = want {
             rebuilt.push(t);
         }
     }
@@ -69,62 +127,81 @@ fn check(body: &[Instruction]) -> Vec<(&'static str, String)> {
     let want_dyn = body.iter().any(|i| matches!(i, Instruction::JumpWhen(_) | Instruction::JumpUnless(_)));
     if want_dyn != dynamic {
         out.push(("dynamic", format!("has_dynamic_control_flow={dynamic}, expected {want_dyn}")));
+    } else if any_dynamic_block != dynamic {
+        out.push(("dynamic", format!("has_dynamic_control_flow={dynamic} but a block with a dynamic terminator exists: {any_dynamic_block}")));
+    }
+    let obs: Vec<Obs> = blocks.iter().map(observe).collect();
+    if obs_back != obs || dyn_back != dynamic {
+        out.push(("owned", format!("after ControlFlowGraphOwned round trip: {:?} (dynamic {dyn_back}), before: {:?} (dynamic {dynamic})", obs_back, obs)));
+    }
+    match (&only, obs.len()) {
+        (Some(o), 1) if *o == obs[0] => {}
+        (None, n) if n != 1 => {}
+        _ => out.push(("single-block", format!("BasicBlock::try_from gives {:?} for a body of {} blocks {:?}", only, obs.len(), obs))),
     }
     out
 }
 
-fn viols_for(seq: &[usize], parsed: &[Instruction], shrink: bool) -> Vec<Viol> {
-    let body: Vec<Instruction> = seq.iter().map(|k| parsed[*k].clone()).collect();
+fn parse_body(txt: &[String]) -> Option<Vec<Instruction>> {
+    txt.iter().map(|t| Instruction::from_str(t).ok()).collect()
+}
+
+fn viols_for(txt: &[String], shrink: bool) -> Vec<Viol> {
+    let Some(body) = parse_body(txt) else { return vec![] };
     let mut vs = vec![];
     for (clause, detail) in check(&body) {
-        let fails = |s: &[usize]| {
-            let b: Vec<Instruction> = s.iter().map(|k| parsed[*k].clone()).collect();
-            check(&b).iter().any(|(c, _)| *c == clause)
-        };
-        let small = if shrink { shrink_idx(seq.to_vec(), &fails) } else { seq.to_vec() };
-        let txt: Vec<&str> = small.iter().map(|k| MENU[*k]).collect();
-        let fp = format!("C28:{clause}:{}", txt.join("; "));
-        let case = json!({"body": txt});
-        vs.push(viol(clause, fp, case, format!("body {:?}: {detail}", seq.iter().map(|k| MENU[*k]).collect::<Vec<_>>())));
+        let fails = |s: &[String]| parse_body(s).map(|b| check(&b).iter().any(|(c, _)| *c == clause)).unwrap_or(false);
+        let small = if shrink { shrink_list(txt.to_vec(), &fails) } else { txt.to_vec() };
+        let fp = format!("C28:{clause}:{}", small.join("; "));
+        let case = json!({"body": small});
+        vs.push(viol(clause, fp, case, format!("body {:?}: {detail}", txt)));
     }
     vs
 }
 
-fn run(ctx: &mut Ctx) {
-    let parsed: Vec<Instruction> = MENU.iter().map(|s| Instruction::from_str(s).unwrap()).collect();
-    let maxlen = ctx.tier.pick(6, 8);
-    ctx.bound("max_body_length", json!(maxlen));
-    ctx.bound("menu", json!(MENU));
-    for len in 0..=maxlen {
-        sequences(MENU.len(), len, |s| {
-            if !ctx.take(|| json!({"body": s.iter().map(|k| MENU[*k]).collect::<Vec<_>>()})) {
+fn sweep(ctx: &mut Ctx, menu: &[&str], maxlen: usize, minlen: usize, tag: &str) {
+    for len in minlen..=maxlen {
+        sequences(menu.len(), len, |s| {
+            let txt: Vec<String> = s.iter().map(|k| menu[*k].to_string()).collect();
+            if !ctx.take(|| json!({"body": txt})) {
                 return;
             }
-            ctx.transitions += MENU.len() as u64 * u64::from(len < maxlen); // successors of this prefix state
-            ctx.state(s);
-            let body: Vec<Instruction> = s.iter().map(|k| parsed[*k].clone()).collect();
+            ctx.transitions += menu.len() as u64 * u64::from(len < maxlen); // successors of this prefix state
+            ctx.state(&txt);
+            let body = parse_body(&txt).expect("menu parses");
             let p = Program::from_instructions(body);
             let nblocks = ControlFlowGraph::from(&p).into_blocks().len();
             if nblocks >= 2 {
-                ctx.nontrivial(s);
+                ctx.nontrivial(&txt);
             }
-            ctx.outcome(&format!("blocks={}", nblocks.min(6)));
-            let vs = viols_for(s, &parsed, true);
+            ctx.outcome(&format!("{tag}blocks={}", nblocks.min(6)));
+            let vs = viols_for(&txt, true);
             ctx.report_all(vs);
         });
-        if !ctx.is_capped() {
+        if !ctx.is_capped() && tag.is_empty() {
             ctx.bound("completed_body_length", json!(len));
         }
+    }
+}
+
+fn run(ctx: &mut Ctx) {
+    let maxlen = ctx.tier.pick(6, 8);
+    ctx.bound("max_body_length", json!(maxlen));
+    ctx.bound("menu", json!(MENU));
+    ctx.bound("menu2", json!(MENU2));
+    ctx.bound("max_body_length_menu2", json!(ctx.tier.pick(5, 7)));
+    ctx.bound("kinds", json!(KINDS));
+    ctx.bound("max_body_length_kinds", json!(ctx.tier.pick(4, 5)));
+    sweep(ctx, MENU, maxlen, 0, "");
+    sweep(ctx, MENU2, ctx.tier.pick(5, 7), 1, "m2:");
+    for k in KINDS {
+        let mut menu = vec![*k];
+        menu.extend_from_slice(KIND_CTL);
+        sweep(ctx, &menu, ctx.tier.pick(4, 5), 1, "kind:");
     }
     ctx.traces = ctx.evals; // every enumerated body is executed on the real ControlFlowGraph
 }
 
 fn replay(case: &Value) -> Vec<Viol> {
-    let parsed: Vec<Instruction> = MENU.iter().map(|s| Instruction::from_str(s).unwrap()).collect();
-    let body = strs(&case["body"]);
-    let seq: Vec<usize> = body.iter().filter_map(|t| MENU.iter().position(|m| m == t)).collect();
-    if seq.len() != body.len() {
-        return vec![];
-    }
-    viols_for(&seq, &parsed, true)
+    viols_for(&strs(&case["body"]), true)
 }
